@@ -81,7 +81,7 @@ func V2Tax(fc types.V2FileContract) *big.Int {
 
 // Reward is the scheduled block reward at a height.
 func Reward(n *consensus.Network, height uint64) *big.Int {
-	r := new(big.Int).Sub(bigC(n.InitialCoinbase), new(big.Int).Mul(new(big.Int).SetUint64(uint64(uint32(height))), hastingsPerSC))
+	r := new(big.Int).Sub(bigC(n.InitialCoinbase), new(big.Int).Mul(new(big.Int).SetUint64(height), hastingsPerSC))
 	if r.Cmp(bigC(n.MinimumCoinbase)) < 0 {
 		return bigC(n.MinimumCoinbase)
 	}
